@@ -26,6 +26,12 @@ func Diag(err error, textLen int) {
 	case kit.JSchemaError:
 		code, msg = e.Code(), e.Message()
 		zzverif.Assert(int(e.Index()) < textLen || e.Index() == 0, "the position lies inside the text")
+		if e.Index() > 0 {
+			// also when several texts are involved (a project of types): the
+			// index must lie inside the text of the file the diagnostic names,
+			// otherwise line and column come out as 0
+			zzverif.Assert(e.Line() >= 1 && e.Column() >= 1, "line and column of a positioned diagnostic are 1-based (the index lies inside the file it names)")
+		}
 		s := e.Error()
 		zzverif.Assert(zzverif.Opaque(s) || len(s) > 0, "the diagnostic renders")
 	case *errs.Err:
